@@ -80,6 +80,7 @@ func (bucket *Bucket) _closeSqliteDB() {
 func (bucket *Bucket) CloseAndDelete(ctx context.Context) (err error) {
 	bucket.mutex.Lock()
 	defer bucket.mutex.Unlock()
+	bucket.closed = true // so that a later Close() of this handle is a no-op
 	bucket._closeSqliteDB()
 	return deleteBucket(ctx, bucket)
 }
